@@ -7,7 +7,7 @@
    connection), Model/C19Mux.v (Listener.serve with io.ReadFull matchers, the
    tables registered by service.listen). *)
 From Coq Require Import ZArith List Bool.
-From V Require Import Bytes C19PTree C19Sniffer C19Mux C19PTreeProofs C19SnifferProofs C19MuxProofs.
+From V Require Import Bytes C19PTree C19Sniffer C19Mux C19Conc C19PTreeProofs C19SnifferProofs C19MuxProofs C19ConcProofs.
 Import ListNotations.
 
 (* the patricia tree, as Go builds it for any list of strings, answers for
@@ -95,7 +95,60 @@ Theorem C19_silent_closed : forall fx tables sc,
 Proof. exact mux_silent_closed. Qed.
 Print Assumptions C19_silent_closed.
 
+(* several connections in the sniff phase at once (Listener.Serve classifies
+   every accepted connection in its own goroutine; the registered trees are
+   shared and immutable, the matcher's read buffer is per call): for any number
+   of connections with any read scripts and EVERY interleaving of their reads
+   (a schedule is a list of connection indices, one sniffer.Read each), once
+   connection j has been given enough steps the decision for j is the one
+   Listener.serve takes on j alone … *)
+Theorem C19_connections_independent : forall tables scs j sc,
+  nth_error scs j = Some sc ->
+  exists k, forall sched,
+    (k <= count_of j sched)%nat ->
+    option_map c_dec (nth_error (fst (run_sched false (sys_init tables scs) sched)) j)
+    = Some (Some (fst (mux_serve true tables sc))).
+Proof. exact connections_independent. Qed.
+Print Assumptions C19_connections_independent.
+
+(* … hence a function of j's own byte stream only *)
+Theorem C19_connections_classified_on_own_stream : forall tables scs j sc,
+  tables_wf tables = true ->
+  nth_error scs j = Some sc -> good (max_depth_all tables) sc = true ->
+  exists k, forall sched,
+    (k <= count_of j sched)%nat ->
+    option_map c_dec (nth_error (fst (run_sched false (sys_init tables scs) sched)) j)
+    = Some (Some (classify tables (stream sc))).
+Proof. exact connections_classified_on_own_stream. Qed.
+Print Assumptions C19_connections_classified_on_own_stream.
+
+(* at every moment of every schedule a connection is exactly where its own steps alone put it *)
+Theorem C19_sched_projection : forall sched cs sb j,
+  nth_error (fst (run_sched false (cs, sb) sched)) j =
+  option_map (iter (count_of j sched) step1) (nth_error cs j).
+Proof. exact sched_projection. Qed.
+Print Assumptions C19_sched_projection.
+
+(* what the theorem excludes: a read buffer owned by the tree and shared by all
+   matcher calls — A's HTTP "OPTIONS * HTTP/1.1", split after "OPTIONS ", is
+   classified on B's "DESCRIBE" and reaches the RTSP service *)
+Example C19_shared_buffer_refuted :
+  let a := [{| it_data := M_OPTIONS ++ [32]; it_err := 0 |};
+            {| it_data := [42;32;72;84;84;80;47;49;46;49;13;10;13;10]; it_err := 0 |}] in
+  let b := [{| it_data := M_DESCRIBE ++ [32;114;116;115;112;58;47;47;104;47;120;32;82;84;83;80;47;49;46;48;13;10;13;10];
+               it_err := 0 |}] in
+  let sched := [0; 1; 0; 0]%nat in
+  classify prod_tables (stream a) = DSvc SVC_HTTP /\
+  option_map c_dec (nth_error (fst (run_sched false (sys_init prod_tables [a; b]) sched)) 0) = Some (Some (DSvc SVC_HTTP)) /\
+  option_map c_dec (nth_error (fst (run_sched true (sys_init prod_tables [a; b]) sched)) 0) = Some (Some (DSvc SVC_RTSP)).
+Proof. exact shared_buffer_refuted. Qed.
+
 (* the decidable oracles applied to the implementation accept the model *)
+Theorem C19_conc_model_passes : forall tables conns,
+  tables_wf tables = true -> ok_conc tables conns (conc_run tables conns) = true.
+Proof. exact conc_model_passes. Qed.
+Print Assumptions C19_conc_model_passes.
+
 Theorem C19_model_passes : forall tables sc svc,
   tables_wf tables = true ->
   let '(d, rem0, rs) := mux_run true tables sc svc in
